@@ -7,6 +7,8 @@ a matrix that *represents* a linear map (`Rep`) is applied correctly by `gf2Matr
 `(g ∘ g)^len2` (`combineLoop_spec`), hence `combine_eq`.
 -/
 import Pithos.Model.Checksum
+
+set_option linter.unusedSimpArgs false  -- `cases … <;> simp […]`: an argument is used in some branches only
 namespace Pithos.Checksum
 
 /-! ### iteration -/
